@@ -95,7 +95,7 @@ theorem C19_sticky {s : State} (h : Reachable s) (op : Op) (id : Nat) (dst : Add
     · cases hout
   | admission src p now hop hvalid hnone hroom hnd hvac hsig slots table len =>
     rw [hsig, hi.drained] at hout; simp at hout
-  | closes ids hnodup hlive hop hsig slots len =>
+  | closes ids hnodup hlive hop hsig slots len hle =>
     rw [hsig, hi.drained] at hout; simp at hout
 
 /-- A live flow incarnation keeps its client, its captured config and — once
@@ -170,7 +170,7 @@ theorem C19_sticky_backend_fixed {s : State} (h : Reachable s) (op : Op) (id : N
     rw [slots, hsig, hi.drained]
     have e : id ≠ nextId s := by intro e; rw [e, hvac] at hf; cases hf
     exact ⟨f, by simp [e, hf], rfl, rfl, fun b hb => hb, by simp⟩
-  | closes ids hnodup hlive hop hsig slots len =>
+  | closes ids hnodup hlive hop hsig slots len hle =>
     rw [slots, hsig, hi.drained]
     by_cases e : id ∈ ids
     · right; simp [e]
@@ -266,7 +266,7 @@ theorem C19_isolated {s : State} (h : Reachable s) (op : Op) (id : Nat) (dst : A
     · cases hout
   | admission src p now hop hvalid hnone hroom hnd hvac hsig slots table len =>
     rw [hsig, hi.drained] at hout; simp at hout
-  | closes ids hnodup hlive hop hsig slots len =>
+  | closes ids hnodup hlive hop hsig slots len hle =>
     rw [hsig, hi.drained] at hout; simp at hout
 
 /-! ### no duplication, merging, truncation, reordering -/
@@ -348,7 +348,7 @@ theorem C19_no_dup_merge_trunc_reorder {s : State} (h : Reachable s) (op : Op) :
     refine ⟨by simp [isToBackend], ?_⟩
     intro id dst pl hout
     rw [hmem _ rfl, hsig, hi.drained] at hout; simp at hout
-  | closes ids hnodup hlive hop hsig slots len =>
+  | closes ids hnodup hlive hop hsig slots len hle =>
     rw [hsig, hi.drained]
     refine ⟨?_, ?_⟩
     · have : (ids.map Out.closeFlow).filter isToBackend = [] := by
@@ -403,7 +403,7 @@ theorem C19_buffer_newest_wins {s : State} (h : Reachable s) (op : Op) (id : Nat
     rw [slots] at hf'
     have e : id ≠ nextId s := by intro e; rw [e, hvac] at hf; cases hf
     simp [e, hf] at hf'; subst hf'; exact Or.inl rfl
-  | closes ids hnodup hlive hop hsig slots len =>
+  | closes ids hnodup hlive hop hsig slots len hle =>
     rw [slots] at hf'
     by_cases e : id ∈ ids
     · simp [e] at hf'
@@ -454,7 +454,7 @@ theorem C19_admission {s : State} (h : Reachable s) (op : Op) (id : Nat) (cl : S
     simp at hout
     obtain ⟨rfl, rfl, rfl⟩ := hout
     exact ⟨src, p, now, hop, hroom, hnd, hvac, hnone, rfl, by rw [slots]; simp, len⟩
-  | closes ids hnodup hlive hop hsig slots len =>
+  | closes ids hnodup hlive hop hsig slots len hle =>
     rw [hsig, hi.drained] at hout; simp at hout
 
 /-- `len` (what admission compares with the cap) is the number of live flows -/
@@ -480,7 +480,7 @@ theorem C19_admission_only_growth {s : State} (h : Reachable s) (op : Op) :
     right
     refine ⟨len, hroom, hnd, nextId s, s.cluster.cluster, affKey src s.cluster.withPort, ?_⟩
     rw [mem_outs_iff_sig rfl, hsig]; simp
-  | closes ids hnodup hlive hop hsig slots len => left; rw [len]; omega
+  | closes ids hnodup hlive hop hsig slots len hle => left; rw [len]; omega
 
 /-- Existing flows keep forwarding whatever the cap and the drain flag are
     (e.g. after `SetMaxFlows` below the live count, or `Drain`): a valid
@@ -581,7 +581,7 @@ theorem step_maxFlows (s : State) (op : Op) (hs : Str s) (hc : Caps s) (hd : s.o
       have h5 : ¬ s.len ≥ s.maxFlows := by omega
       simp [hnd, h5]; rw [admitFlow_eq]
       exact ((sameKnobs_reschedule _).maxFlows).trans (admitted_knobs s (flowKey src s.cluster.withPort) (newFlow src s.cluster p now)).maxFlows
-    | closes ids hnodup hlive hop hsig slots len =>
+    | closes ids hnodup hlive hop hsig slots len hle =>
       rcases hop with ⟨_, h, _⟩ | ⟨h, _⟩ | ⟨_, h, _⟩ <;> cases h
   | backend id p now =>
     obtain ⟨_, _, k⟩ := onBackend_kind hs hc id p now
@@ -631,7 +631,7 @@ theorem step_maxFlows (s : State) (op : Op) (hs : Str s) (hc : Caps s) (hd : s.o
     | reply id' p' now' f hop hlen hf hph res => exact res.knobs.maxFlows
     | resolve id' bid' addr' now' f q hop hf hph hq res => exact res.knobs.maxFlows
     | admission src' p' now' hop hvalid hnone hroom hnd hvac hsig slots table len => cases hop
-    | closes ids hnodup hlive hop hsig slots len =>
+    | closes ids hnodup hlive hop hsig slots len hle =>
       rcases hop with ⟨_, h, _⟩ | ⟨h, _⟩ | ⟨_, h, _⟩ <;> cases h
   | setCluster cfg => rfl
   | setMaxFlows n => rfl
@@ -673,7 +673,7 @@ theorem C19_admission_bounded (c : Cfg) (mf mr : Nat) (ops : List Op) :
         | reply id' p now f hop hlen hf hph res => left; rw [res.len]; split <;> omega
         | resolve id' bid addr now f q hop hf hph hq res => left; rw [res.len]; split <;> omega
         | admission src p now hop hvalid hnone hroom hnd hvac hsig slots table len => right; exact ⟨len, hroom⟩
-        | closes ids hnodup hlive hop hsig slots len => left; rw [len]; omega
+        | closes ids hnodup hlive hop hsig slots len hle => left; rw [len]; omega
       have hlen : (step s op).1.len ≤ hw := by
         rcases hreach s hi op with h | ⟨h, h'⟩ <;> omega
       have hmf := step_maxFlows s op hi.str hi.caps hi.drained
@@ -767,7 +767,7 @@ theorem C19_close_once {s : State} (h : Reachable s) (op : Op) :
     rw [hsig, hi.drained]
     refine ⟨by simp [closedIds], ?_⟩
     intro id hid; rw [hmem _ rfl, hsig, hi.drained] at hid; simp at hid
-  | closes ids hnodup hlive hop hsig slots len =>
+  | closes ids hnodup hlive hop hsig slots len hle =>
     rw [hsig, hi.drained]
     refine ⟨by simpa [closedIds_map] using hnodup, ?_⟩
     intro id hid
@@ -845,6 +845,92 @@ theorem C19_idle_reclaimed {s : State} (h : Reachable s) (now : Nat) :
     · intro hx
       exact ⟨id, (mem_due hi.str now id).mpr hx, rfl⟩
 
+/-! ### trace level: admissions − closes = live flows, along every run -/
+
+/-- number of `SelectBackend` (admissions) in a trace -/
+def admissionsIn (tr : List (List Out)) : Nat := (tr.flatten.filter isSel).length
+/-- number of `CloseFlow` in a trace -/
+def closesIn (tr : List (List Out)) : Nat := (closedIds tr.flatten).length
+
+theorem sel_closeIf (c : Bool) (id : Nat) :
+    (if c = true then [Out.closeFlow id] else []).filter isSel = [] := by
+  cases c <;> rfl
+
+/-- one input: admissions + live before = closes + live after -/
+theorem step_accounting {s : State} (hi : Inv s) (op : Op) :
+    ((step s op).2.filter isSel).length + s.len =
+      (closedIds (step s op).2).length + (step s op).1.len := by
+  obtain ⟨_, k⟩ := step_kind hi op
+  rw [step_snd s op hi.drained, step_len s op hi.drained, ← sel_sig, ← closedIds_sig]
+  cases k with
+  | quiet core sg =>
+    obtain ⟨l, hl, hd⟩ := sg
+    rw [hl, hi.drained, core.len]
+    have h1 : (sig [] ++ l).filter isSel = [] := by
+      apply List.filter_eq_nil_iff.mpr
+      intro o ho; obtain ⟨r, hr⟩ := hd o (by simpa using ho); subst hr; simp [isSel]
+    have h2 : closedIds (sig [] ++ l) = [] := by
+      apply List.filterMap_eq_nil_iff.mpr
+      intro o ho; obtain ⟨r, hr⟩ := hd o (by simpa using ho); subst hr; rfl
+    rw [h1, h2]; simp
+  | buffer src p now id' f hop hvalid hk hf hph hsig slots len table =>
+    rw [hsig, hi.drained, len]; rfl
+  | forward src p now id' f b hop hvalid hk hf hph hb res =>
+    have hpos := len_pos_of_live hi.str hf
+    rw [res.sig, hi.drained, res.len, closedIds_append, closedIds_append, closedIds_closeIf,
+      List.filter_append, List.filter_append, sel_closeIf]
+    cases (f.onClient now).takePP.2.teardownDue <;> simp [closedIds, isSel, List.filter_cons] <;> omega
+  | reply id' p now f hop hlen hf hph res =>
+    have hpos := len_pos_of_live hi.str hf
+    rw [res.sig, hi.drained, res.len, closedIds_append, closedIds_append, closedIds_closeIf,
+      List.filter_append, List.filter_append, sel_closeIf]
+    cases (f.onBackend now).teardownDue <;> simp [closedIds, isSel, List.filter_cons] <;> omega
+  | resolve id' bid addr now f q hop hf hph hq res =>
+    have hpos := len_pos_of_live hi.str hf
+    rw [res.sig, hi.drained, res.len, closedIds_append, closedIds_append, closedIds_closeIf,
+      List.filter_append, List.filter_append, sel_closeIf]
+    cases (resolvedFlow f bid addr now).teardownDue <;> simp [closedIds, isSel, List.filter_cons] <;> omega
+  | admission src p now hop hvalid hnone hroom hnd hvac hsig slots table len =>
+    rw [hsig, hi.drained, len]
+    simp [closedIds, isSel, List.filter_cons]; omega
+  | closes ids hnodup hlive hop hsig slots len hle =>
+    rw [hsig, hi.drained, len]
+    have h1 : (sig [] ++ ids.map Out.closeFlow).filter isSel = [] := by
+      apply List.filter_eq_nil_iff.mpr
+      intro o ho
+      have : o ∈ ids.map Out.closeFlow := by simpa using ho
+      obtain ⟨i, _, rfl⟩ := List.mem_map.mp this; simp [isSel]
+    rw [h1, closedIds_append, closedIds_map]
+    simp [closedIds]
+    omega
+
+/-- **Each admitted flow incarnation is closed exactly once (trace level).**
+    Along any input sequence, from any reachable-style state: the number of
+    admissions (`SelectBackend`) in the trace plus the live flows at the start
+    equals the number of `CloseFlow`s plus the live flows at the end. -/
+theorem C19_close_once_accounting_from (ops : List Op) : ∀ {s : State}, Inv s →
+    admissionsIn (trace s ops) + s.len = closesIn (trace s ops) + (run s ops).len := by
+  induction ops with
+  | nil => intro s _; simp [admissionsIn, closesIn, trace, run, closedIds]
+  | cons op ops ih =>
+    intro s hi
+    have h1 := step_accounting hi op
+    have h2 := ih (inv_step hi op)
+    have hrun : run s (op :: ops) = run (step s op).1 ops := rfl
+    rw [hrun]
+    simp only [admissionsIn, closesIn, trace, List.flatten_cons, List.filter_append, List.length_append,
+      closedIds_append] at h2 ⊢
+    omega
+
+/-- From a fresh manager: admissions − closes = live flows, after every input
+    sequence; in particular once everything is torn down (`len = 0`) every
+    admission has been matched by exactly one `CloseFlow`. -/
+theorem C19_close_once_accounting (c : Cfg) (mf mr : Nat) (ops : List Op) :
+    admissionsIn (trace (State.new c mf mr) ops) =
+      closesIn (trace (State.new c mf mr) ops) + (run (State.new c mf mr) ops).len := by
+  have := C19_close_once_accounting_from ops (inv_new c mf mr)
+  simpa [State.new] using this
+
 /-! ### non-vacuity: a concrete run exercising every branch the theorems talk about -/
 
 def exC1 : Addr := { v6 := false, ip := [10, 0, 0, 1], port := 9000 }
@@ -877,6 +963,13 @@ example : (step exState (.client { exC2 with port := 9001 } [5] 6)).2 =
 /-- idle reclaim closes exactly the due flow; close_all closes the rest once -/
 example : closedIds (step exState (.timeout 402)).2 = [1] ∧
     closedIds (step exState .closeAll).2 = [0, 1] := by decide
+
+/-- trace-level accounting on a concrete run: two admissions, one idle close, one mass-teardown close -/
+example : admissionsIn (trace (State.new exCfg 2 64)
+      [.client exC1 [1] 0, .client exC2 [3] 2, .resolved 0 "b0" cexB 3, .timeout 402, .closeAll]) = 2 ∧
+    closesIn (trace (State.new exCfg 2 64)
+      [.client exC1 [1] 0, .client exC2 [3] 2, .resolved 0 "b0" cexB 3, .timeout 402, .closeAll]) = 2 := by
+  decide
 
 end Sozu.Udp
 
